@@ -30,6 +30,7 @@ import NeoFS.Driver.ShardMode
 import NeoFS.Driver.SearchMerge
 import NeoFS.Driver.Search
 import NeoFS.Driver.Rpc
+import NeoFS.Driver.Migrate
 open NeoFS NeoFS.Driver
 
 /-- State of all stateful models; pure models need none. -/
@@ -48,6 +49,7 @@ structure DState where
   modes : NeoFS.ShardMode.St := {}
   smerge : NeoFS.Driver.SMergeState := {}
   search : NeoFS.Driver.SearchState := {}
+  mig : NeoFS.Driver.MigrateState := {}
   irn : NeoFS.IRNetmap.St := ⟨0, false, 0⟩
 
 def stepLine (s : DState) (line : String) : DState × String :=
@@ -73,6 +75,7 @@ def stepLine (s : DState) (line : String) : DState × String :=
   | "smerge" => let (e, out) := smergeStep s.smerge o; ({ s with smerge := e }, out)
   | "search" => let (e, out) := searchStep s.search o; ({ s with search := e }, out)
   | "rpc" => (s, rpcStep o)
+  | "migrate" => let (m, out) := migrateStep s.mig o; ({ s with mig := m }, out)
   | "put" => (s, putStep o)
   | "validate" => (s, validateStep o)
   | "wcread" => let (w, out) := wcreadStep s.wcr o; ({ s with wcr := w }, out)
